@@ -1,1 +1,2 @@
--- property theorems for C13 (stub)
+-- property theorems for C13 (number <-> text); see Strtod/Model.lean
+import JanetModel.Strtod.Model
